@@ -20,6 +20,8 @@ FUNCTIONS = [
     "Converter.expand_pair", "Converter.expand", "Converter.is_curie", "Converter.get_record", "Converter.expand_pair_all",
     "Converter.expand_all", "Converter.parse", "Converter.compress_or_standardize", "Converter.expand_or_standardize",
     "Converter.standardize_curie", "Converter.standardize_uri", "Converter.compress_strict", "Converter.expand_strict",
+    "_get_shacl_line", "_record_to_dict", "_get_expanded_term", "_get_jsonld_context",
+    "Converter._index", "Converter._merge",
 ]
 SHORT = [q.rpartition(".")[2] for q in FUNCTIONS]
 INDEX = {n: i for i, n in enumerate(SHORT)}
@@ -32,7 +34,7 @@ ERR = {
 }
 SDICT = {"prefix_map": "DPrefixMap", "synonym_to_prefix": "DSynonymToPrefix", "reverse_prefix_map": "DReversePrefixMap",
          "pattern_map": "DPatternMap"}
-ATTR = {"prefix": "APrefix", "identifier": "AIdentifier", "uri_prefix": "AUriPrefix", "prefix_synonyms": "APrefixSynonyms",
+ATTR = {"_all_prefixes": "AAllPrefixes", "_all_uri_prefixes": "AAllUriPrefixes", "prefix": "APrefix", "identifier": "AIdentifier", "uri_prefix": "AUriPrefix", "prefix_synonyms": "APrefixSynonyms",
         "uri_prefix_synonyms": "AUriPrefixSynonyms", "pattern": "APattern"}
 
 
@@ -55,7 +57,8 @@ def find_function(tree: ast.Module, qual: str) -> ast.FunctionDef:
         raise Unsupported(f"function {qual}: {len(fns)} definitions")
     fn = fns[0]
     for d in fn.decorator_list:
-        raise Unsupported(f"decorator on {qual}")
+        if not (isinstance(d, ast.Name) and d.id == "staticmethod"):
+            raise Unsupported(f"decorator on {qual}")
     return fn
 
 
@@ -79,15 +82,30 @@ def subclasses_in_err(bases: dict[str, list[str]], root: str) -> list[str]:
     return list(dict.fromkeys(caught))
 
 
+def converter_param(fn: ast.FunctionDef):
+    """A module-level function whose first parameter is annotated `Converter` reads the converter's state through it."""
+    a = fn.args.args
+    if a and isinstance(a[0].annotation, ast.Name) and a[0].annotation.id == "Converter":
+        return a[0].arg
+    return None
+
+
 class Signature:
     def __init__(self, fn: ast.FunctionDef, is_method: bool):
         a = fn.args
         if a.vararg or a.kwarg or a.posonlyargs:
             raise Unsupported(f"signature of {fn.name}")
         pos = [x.arg for x in a.args]
-        if is_method:
+        self.self_name = None
+        if is_method and any(isinstance(d, ast.Name) and d.id == "staticmethod" for d in fn.decorator_list):
+            pass
+        elif is_method:
             if not pos or pos[0] != "self":
                 raise Unsupported(f"{fn.name}: first parameter is not self")
+            self.self_name = "self"
+            pos = pos[1:]
+        elif converter_param(fn):
+            self.self_name = converter_param(fn)
             pos = pos[1:]
         npos_defaults = len(a.defaults)
         self.params = pos + [x.arg for x in a.kwonlyargs]
@@ -130,14 +148,14 @@ class FnTranslator:
         raise Unsupported(f"constant {v!r}")
 
     def is_self(self, n) -> bool:
-        return self.is_method and isinstance(n, ast.Name) and n.id == "self"
+        return self.sig.self_name is not None and isinstance(n, ast.Name) and n.id == self.sig.self_name
 
     def exp(self, n: ast.expr) -> str:
         if isinstance(n, ast.Constant):
             return self.const(n.value)
         if isinstance(n, ast.Name):
-            if n.id == "self":
-                raise Unsupported("bare self")
+            if n.id == self.sig.self_name:
+                raise Unsupported("the converter itself used as a value")
             return f"(EVar {self.var(n.id)})"
         if isinstance(n, ast.Attribute):
             if self.is_self(n.value):
@@ -172,6 +190,9 @@ class FnTranslator:
                 return f"(EEq {self.exp(a)} {self.exp(b)})"
             if isinstance(op, ast.NotEq):
                 return f"(ENot (EEq {self.exp(a)} {self.exp(b)}))"
+            if isinstance(op, (ast.In, ast.NotIn)) and isinstance(b, ast.Attribute) and self.is_self(b.value) and b.attr in SDICT:
+                has = f"(EDictHas {SDICT[b.attr]} {self.exp(a)})"
+                return has if isinstance(op, ast.In) else f"(ENot {has})"
             if isinstance(op, ast.In):
                 return f"(EIn {self.exp(a)} {self.exp(b)})"
             if isinstance(op, ast.NotIn):
@@ -186,6 +207,11 @@ class FnTranslator:
             return out
         if isinstance(n, ast.UnaryOp) and isinstance(n.op, ast.Not):
             return f"(ENot {self.exp(n.operand)})"
+        if isinstance(n, ast.Dict):
+            if not all(isinstance(k, ast.Constant) and isinstance(k.value, str) for k in n.keys):
+                raise Unsupported("dict literal with non-constant keys")
+            keys = "; ".join(coq_str(k.value) for k in n.keys)
+            return f"(EDictLit [{keys}] {self.exps([self.exp(v) for v in n.values])})"
         if isinstance(n, ast.IfExp):
             return f"(EIfExp {self.exp(n.test)} {self.exp(n.body)} {self.exp(n.orelse)})"
         if isinstance(n, ast.Tuple):
@@ -233,7 +259,13 @@ class FnTranslator:
         f = n.func
         if isinstance(f, ast.Name):
             if f.id in INDEX and not FUNCTIONS[INDEX[f.id]].startswith("Converter."):
+                if self.sigs[f.id].self_name is not None:
+                    if not (n.args and self.is_self(n.args[0])):
+                        raise Unsupported(f"{f.id} called on another converter")
+                    n = ast.Call(func=n.func, args=n.args[1:], keywords=n.keywords)
                 return f"(ECall f_{f.id} {self.call_args(f.id, n)})"
+            if f.id == "sorted" and len(n.args) == 1 and not n.keywords:
+                return f"(ESorted {self.exp(n.args[0])})"
             if f.id == "ReferenceTuple" and len(n.args) == 2 and not n.keywords and not any(isinstance(a, ast.Starred) for a in n.args):
                 return f"(ETuple {self.exps([self.exp(a) for a in n.args])})"
             raise Unsupported(f"call of {f.id}")
@@ -249,8 +281,14 @@ class FnTranslator:
                 if recv.attr == "trie" and f.attr == "longest_prefix_item" and len(n.args) == 1 and not n.keywords:
                     return f"(ETrieLPI {self.exp(n.args[0])})"
                 raise Unsupported(f"self.{recv.attr}.{f.attr}(...)")
+            if isinstance(recv, ast.Name) and recv.id in ("itt", "itertools") and f.attr == "chain" and not n.keywords \
+                    and not any(isinstance(a, ast.Starred) for a in n.args):
+                return f"(EChain {self.exps([self.exp(a) for a in n.args])})"
             if f.attr == "partition" and len(n.args) == 1 and not n.keywords:
                 return f"(EPartition {self.exp(recv)} {self.exp(n.args[0])})"
+            if f.attr == "replace" and len(n.args) == 2 and not n.keywords and all(isinstance(a, ast.Constant) and isinstance(a.value, str) for a in n.args) \
+                    and len(n.args[0].value) == 1:
+                return f"(EReplace1 {self.exp(recv)} {ord(n.args[0].value)}%N {coq_str(n.args[1].value)})"
             raise Unsupported(f"method call .{f.attr}(...)")
         raise Unsupported("call " + ast.unparse(n)[:60])
 
@@ -280,6 +318,13 @@ class FnTranslator:
                     return "SPass"
                 if isinstance(f.value, ast.Name) and f.value.id in self.vars and f.attr == "append" and len(v.args) == 1 and not v.keywords:
                     return f"(SAppend {self.var(f.value.id)} {self.exp(v.args[0])})"
+                if isinstance(f.value, ast.Attribute) and isinstance(f.value.value, ast.Name) and f.value.value.id in self.vars \
+                        and f.value.attr in ("prefix_synonyms", "uri_prefix_synonyms") and not v.keywords:
+                    x, a = self.var(f.value.value.id), ATTR[f.value.attr]
+                    if f.attr == "append" and len(v.args) == 1:
+                        return f"(SRecAppend {x} {a} {self.exp(v.args[0])})"
+                    if f.attr == "sort" and not v.args:
+                        return f"(SRecSort {x} {a})"
             raise Unsupported("expression statement " + ast.unparse(s)[:60])
         if isinstance(s, ast.Pass):
             return "SPass"
@@ -288,11 +333,22 @@ class FnTranslator:
             if isinstance(t, ast.Name):
                 e = self.exp(s.value)
                 return f"(SAssign {self.var(t.id, create=True)} {e})"
+            if isinstance(t, ast.Subscript) and isinstance(t.value, ast.Attribute) and self.is_self(t.value.value) and not isinstance(t.slice, ast.Slice):
+                if t.value.attr in SDICT:
+                    return f"(SSelfSet {SDICT[t.value.attr]} {self.exp(t.slice)} {self.exp(s.value)})"
+                if t.value.attr == "trie":
+                    return f"(STrieSet {self.exp(t.slice)} {self.exp(s.value)})"
+                raise Unsupported(f"assignment into self.{t.value.attr}[...]")
+            if isinstance(t, ast.Subscript) and isinstance(t.value, ast.Name) and t.value.id in self.vars and not isinstance(t.slice, ast.Slice):
+                return f"(SSetItem {self.var(t.value.id)} {self.exp(t.slice)} {self.exp(s.value)})"
             if isinstance(t, ast.Tuple) and all(isinstance(x, ast.Name) for x in t.elts):
                 e = self.exp(s.value)
                 ids = "; ".join(str(self.var(x.id, create=True)) for x in t.elts)
                 return f"(SUnpack [{ids}] {e})"
             raise Unsupported("assignment target " + ast.unparse(t))
+        if isinstance(s, ast.AugAssign) and isinstance(s.target, ast.Name) and isinstance(s.op, ast.Add):
+            x = self.var(s.target.id)
+            return f"(SAssign {x} (EAdd (EVar {x}) {self.exp(s.value)}))"
         if isinstance(s, ast.AnnAssign) and isinstance(s.target, ast.Name) and s.value is not None:
             e = self.exp(s.value)
             return f"(SAssign {self.var(s.target.id, create=True)} {e})"
